@@ -124,8 +124,10 @@ func findDispatchers(p *Program) ([]*Dispatcher, error) {
 			}
 		}
 		d.Service, d.Route, d.Err = vars[0], vars[1], vars[2]
-		if d.Route.Cell == nil && d.Route.Val == nil {
-			return nil, fmt.Errorf("SelectRoute result #1 unused in %s", p.fname(call.Parent()))
+		if d.Route.Cell == nil && (d.Route.Val == nil || len(referrers(d.Route.Val)) == 0) {
+			// the selected route is discarded: a lookup of the service that serves a path (computeAllowedMethods),
+			// not a dispatch. If this was the only invoke, no dispatcher is found and the callers report that.
+			continue
 		}
 		out = append(out, d)
 	}
